@@ -1,7 +1,7 @@
 """C10 — PickAPerm returns exactly the best input rankings."""
 from fractions import Fraction
 from hypothesis import strategies as st
-from vlib import gen, lib, configs, oracle
+from vlib import gen, lib, configs, oracle, mutate
 from vlib.harness import HypSub
 from vlib.lib import Violation
 from checks.common_alg import well_formed
@@ -45,6 +45,32 @@ def proportional(a, b, upto=6):
     return k is None or k > 0
 
 
+
+@st.composite
+def preludes(draw):
+    """what the long-lived algorithm instance of a case did BEFORE the case's own dataset: nothing, or a run on another
+    small dataset (tie-free and complete half of the time), under some scheme"""
+    if draw(st.integers(0, 2)) == 0:
+        return None
+    shape = draw(st.sampled_from(["complete", "complete", "incomplete", "near_unanimous", "identical"]))
+    ds = draw(gen.datasets(max_n=5, max_m=3, shapes=[shape], kinds=("dense", "str"), allow_empty_rankings=False))
+    if draw(st.booleans()):
+        ds["rankings"] = [[[e] for b in r for e in b] for r in ds["rankings"]]          # break every tie
+    return {"rankings": ds["rankings"], "scheme": draw(gen.preset_multiples(["unifying", "induced", "unifying_half"]))}
+
+
+def run_prelude(algs, prelude):
+    if not prelude:
+        return
+    d0, s0 = lib.mk_dataset(prelude["rankings"]), lib.mk_scheme(prelude["scheme"])
+    for a in algs:
+        try:
+            with lib.quiet():
+                a.compute_consensus_rankings(d0, s0, True)
+        except Exception:  # noqa  (a refusal of the prelude is not the subject)
+            pass
+
+
 @st.composite
 def cases(draw, tier):
     big = tier == "thorough"
@@ -57,7 +83,8 @@ def cases(draw, tier):
         scheme = draw(gen.dyadic_schemes())
     ds = draw(gen.datasets(max_n=10 if big else 7, max_m=6, shapes=SHAPES))
     return {"scheme": scheme, "dataset": ds, "at_most_one": draw(st.booleans()), "family": fam,
-            "via_enum": draw(st.booleans())}
+            "via_enum": draw(st.booleans()), "prelude": draw(preludes()),
+            "via_mutation": draw(mutate.via_strategy(ds["rankings"], p=4))}
 
 
 EXTRA_SCHEMES = [gen.PRESETS["unifying"], gen.scale(gen.PRESETS["unifying"], 2.0), gen.PRESETS["extended"],
@@ -69,8 +96,11 @@ def check(case, ctx):
     # generation dominates the cost: the drawn scheme, then a fixed family of schemes (unifying and a multiple, two
     # schemes under which the score is not a metric, induced, a near-unifying one)
     # ONE PickAPerm instance and ONE Dataset object serve the whole batch (state kept between runs must not leak)
-    shared = {"alg": get_algorithm(Algorithm.PICKAPERM) if case.get("via_enum") else PickAPerm(),
-              "d": lib.mk_dataset(case["dataset"]["rankings"])}
+    alg = get_algorithm(Algorithm.PICKAPERM) if case.get("via_enum") else PickAPerm()
+    run_prelude([alg], case.get("prelude"))
+    first = lib.mk_scheme(case["scheme"])
+    shared = {"alg": alg, "d": mutate.build(case["dataset"]["rankings"], case.get("via_mutation"),
+                                            lambda d0: alg.compute_consensus_rankings(d0, first, case["at_most_one"]))}
     check_one(case, ctx, shared)
     if case.get("batched", True):
         for sch in EXTRA_SCHEMES:
